@@ -48,7 +48,7 @@ mk s19-cone-cbrt-to-sqrt C19 "HSV cone: value drawn with sqrt instead of cbrt (c
   $P/random_sampling/cone.rs '29s/value: r1\.cbrt\(\),/value: r1.sqrt(),/'
 mk s19-cylinder-radius-no-sqrt C19 "cylinder Uniform: radius sample without the square root" \
   $P/macros/random.rs '374s/self\.\$radius\.sample\(rng\)\.sqrt\(\)/self.$radius.sample(rng)/'
-mk s19-cylinder-standard-no-sqrt C19 "cylinder Standard: radius without the square root" \
+mk s19-cylinder-standard-no-sqrt C19 "[NOT a violation of the property as stated - expected silent] cylinder Standard: radius without the square root (inside the bounds; only a cylinder, which the volume clause does not cover)" \
   $P/macros/random.rs '294s/rng\.gen::<T>\(\)\.sqrt\(\)/rng.gen::<T>()/'
 mk s19-bicone-height-linear C19 "bicone: height taken linearly from r1 (no cube root): coordinate- instead of volume-uniform lightness" \
   $P/random_sampling/cone.rs '74s/let height = r1\.cbrt\(\);/let height = r1;/'
